@@ -1405,11 +1405,18 @@ impl FdlActiveStation {
             // Only check and transition to ActiveIdle on the first telegram.
             if first_in {
                 if telegram.source_address() != Some(self.token_ring.next_station()) {
-                    log::warn!(
-                        "Unexpected station #{} transmitting after token pass to #{}",
-                        telegram.source_address().unwrap(),
-                        self.token_ring.next_station()
-                    );
+                    if let Some(source_address) = telegram.source_address() {
+                        log::warn!(
+                            "Unexpected station #{} transmitting after token pass to #{}",
+                            source_address,
+                            self.token_ring.next_station()
+                        );
+                    } else {
+                        log::warn!(
+                            "Unexpected short confirmation after token pass to #{}",
+                            self.token_ring.next_station()
+                        );
+                    }
                 }
 
                 // In case this was a telegram to us, we must already handle it in ActiveIdle state
